@@ -233,6 +233,13 @@ class TemplateGen:
             tail = [] if unclosed else [203000]
             if r.random() < 0.3:
                 tail = tail + [r.choice(es)]           # used again after cancellation
+            if r.random() < 0.3:
+                # a SECOND definition phase (another width, another element) before any cancellation: the values of the
+                # first phase stay in force
+                e2 = r.choice([x for x in p.numeric if x not in es] or p.numeric)
+                y2 = r.choice([yy for yy in (8, 12, 16, 20, 24) if yy != y])
+                uses = [203000 + y2, e2, 203255] + [r.choice(es), e2] + uses
+                self.features['op-203-two-phases'] += 1
             return [203000 + y] + es + [203255] + uses + tail
         if k == '204':
             y = r.choice([1, 2, 4, 6, 8])
